@@ -124,6 +124,8 @@ type c18env struct {
 	*env
 	owner     []world.SignerSpec
 	committee []world.SignerSpec
+	// verdicts on addresses written out in full, by text
+	fullVerdict map[string]bool
 }
 
 func syntaxRefusal(err string) bool {
@@ -162,7 +164,7 @@ func nameClass(s string, ok bool) string {
 }
 
 // judgeData classifies record data through addRecord test invocations on a registered name.
-func (c *c18env) judgeData(typ int, data string, must, may bool, class string) {
+func (c *c18env) judgeData(typ int, data string, must, may bool, class string) bool {
 	b := c.b
 	r := c.w.ReadWith(world.ReadOpts{Signers: c.owner}, c.nns, "addRecord", "rec.com", int64(typ), data)
 	b.Read(1)
@@ -184,11 +186,41 @@ func (c *c18env) judgeData(typ int, data string, must, may bool, class string) {
 	} else {
 		b.Hit(fmt.Sprintf("type%d-refused", typ))
 	}
+	return accepted
 }
 
 func (c *c18env) judgeA(s, class string) { c.judgeData(tA, s, mustAcceptA(s), mayAcceptA(s), class) }
+
+// judgeAAAA: besides the two bands, the verdict must belong to the address and not to its spelling: where the statement
+// leaves the verdict open (the special-purpose blocks inside 2000::/3), a lower-case textual form and the same address
+// written out in full (eight groups of four digits) must fare alike (seeded change C18-11: a two-digit group read
+// differently from the same group with leading zeros)
 func (c *c18env) judgeAAAA(s, class string) {
-	c.judgeData(tAAAA, s, mustAcceptAAAA(s), mayAcceptAAAA(s), class)
+	accepted := c.judgeData(tAAAA, s, mustAcceptAAAA(s), mayAcceptAAAA(s), class)
+	a, ok := textualV6(s)
+	if !ok || s != strings.ToLower(s) {
+		return
+	}
+	full := a.StringExpanded()
+	if full == s {
+		return
+	}
+	if c.fullVerdict == nil {
+		c.fullVerdict = map[string]bool{}
+	}
+	fv, seen := c.fullVerdict[full]
+	if !seen {
+		r := c.w.ReadWith(world.ReadOpts{Signers: c.owner}, c.nns, "addRecord", "rec.com", int64(tAAAA), full)
+		c.b.Read(1)
+		fv = r.OK()
+		c.fullVerdict[full] = fv
+	}
+	if fv != accepted {
+		c.b.Violation(fmt.Sprintf("addRecord(AAAA): %q accepted=%v, the same address written out in full %q accepted=%v", s, accepted, full, fv),
+			map[string]any{"data": s, "full": full})
+	}
+	c.b.Eval(fmt.Sprintf("spelling|%s|%v", class, accepted), true)
+	c.b.Hit("aaaa-spelling-compared-with-the-full-form")
 }
 
 const nameAlphabet = "az09-.A_+ "
